@@ -162,11 +162,46 @@ def case_C11(seed):
         from leuvenmapmatching.map.inmem import InMemMap
         import copy
         U.quiet()
-        im = InMemMap('im', use_latlon=use_latlon, use_rtree=False, graph=copy.deepcopy(g))
         import io, contextlib
-        sm, edges = build_sqlite(g, d, use_latlon=use_latlon, how=rnd.choice(['bulk', 'single']))
+        how11 = rnd.choice(['bulk', 'single'])
         pts = [v[0] for v in g.values()]
         unit = {'unit': 1.0, '1e7': 3.0, 'deg': 200.0, 'deg-rim': 200.0}[scale]      # typical length in the metric's unit
+        grown = seed % 3 == 1 and rim is None and len(g) >= 3
+        pre_queries = []
+        if grown:
+            # the map is queried, extended through add_node / add_edge, and queried again with the SAME arguments
+            keys = list(g)
+            # (half of these cases add only edges afterwards, the other half a node and edges)
+            k1 = set(keys) if seed % 2 == 0 else set(keys[:max(2, len(keys) - 1)])
+            sub = {k: (g[k][0], [b for b in g[k][1] if b in k1][:1]) for k in keys if k in k1}
+            im = InMemMap('im', use_latlon=use_latlon, use_rtree=False, graph=copy.deepcopy(sub))
+            sm, edges1 = build_sqlite(sub, d, use_latlon=use_latlon, how=how11)
+            r2 = random.Random(seed)
+            for _ in range(2):
+                b_ = r2.choice(pts)
+                pre_queries.append(((b_[0], b_[1]), r2.choice([1.0, 2.5, 50.0]) * unit, r2.choice([None, 1, 3])))
+            for loc_, r_, me_ in pre_queries:
+                for mp_ in (im, sm):
+                    with contextlib.redirect_stdout(io.StringIO()):
+                        list(mp_.nodes_closeto(loc_, max_dist=r_, max_elmt=me_))
+                        list(mp_.edges_closeto(loc_, max_dist=r_, max_elmt=me_))
+            for k in keys:
+                if k not in k1:
+                    im.add_node(k, g[k][0])
+                    sm.add_node(k, g[k][0])
+            seen_e = set(edges1)
+            edges = list(edges1)
+            for a in keys:
+                for b in g[a][1]:
+                    if b in g and (a, b) not in seen_e:
+                        seen_e.add((a, b))
+                        edges.append((a, b))
+                        im.add_edge(a, b)
+                        sm.add_edge(a, b)
+            # the in-memory map now lists the neighbours in insertion order: the expectation is taken from the full graph
+        else:
+            im = InMemMap('im', use_latlon=use_latlon, use_rtree=False, graph=copy.deepcopy(g))
+            sm, edges = build_sqlite(g, d, use_latlon=use_latlon, how=how11)
         for q in range(3 if rim is None else 1):
             base = rnd.choice(pts)
             if rim is not None:
@@ -181,6 +216,8 @@ def case_C11(seed):
             max_elmt = rnd.choice([None, None, 1, 3])
             if rim is not None:
                 loc, r, max_elmt = rim[0], rim[1], None
+            if q < len(pre_queries):
+                loc, r, max_elmt = pre_queries[q]
             exp_n = sorted(((lib.distance(loc, p), k, p) for k, (p, nb) in g.items()), key=lambda t: t[0])
             exp_n = [t for t in exp_n if t[0] < r]
             exp_e = []
@@ -299,8 +336,8 @@ def case_C12(seed):
         if grown:
             # the map is queried, then extended through the single-insert interface, then queried again (both backends)
             keys = list(g)
-            k1 = set(keys[:max(2, len(keys) // 2)])
-            sub = {k: (g[k][0], [b for b in g[k][1] if b in k1]) for k in keys if k in k1}
+            k1 = set(keys) if seed % 2 == 0 else set(keys[:max(2, len(keys) // 2)])
+            sub = {k: (g[k][0], [b for b in g[k][1] if b in k1][:(1 if seed % 2 == 0 else 99)]) for k in keys if k in k1}
             im = InMemMap('im', use_latlon=use_latlon, use_rtree=False, graph=copy.deepcopy(sub))
             sm, edges1 = build_sqlite(sub, d, use_latlon=use_latlon, how=how)
             b0 = [(min(ys), min(xs), max(ys), max(xs))]
